@@ -90,6 +90,65 @@ fn op_decomp(j: &Value) -> Value {
     }
 }
 
+/// the vector operations of the property, in this (debug-assertions, overflow-checks) build
+fn op_vec(j: &Value) -> Value {
+    let d = j["D"].as_u64().unwrap() as usize;
+    let f = j["fn"].as_str().unwrap();
+    let get = |k: &str| -> Vec<f64> { j.get(k).and_then(|v| v.as_array()).map(|a| a.iter().map(|v| b2f(v.as_u64().unwrap())).collect()).unwrap_or_default() };
+    let (a, b) = (get("a"), get("b"));
+    let s = j.get("s").and_then(|v| v.as_u64()).map(b2f).unwrap_or(0.0);
+    with_d!(d, D, {
+        let va = || Vector::<f64, D>::from_vec(a.clone());
+        let vb = || Vector::<f64, D>::from_vec(b.clone());
+        let r: Vec<f64> = match f {
+            "add" => (&va() + &vb()).get_elements().to_vec(),
+            "sub" => (&va() - &vb()).get_elements().to_vec(),
+            "muls" => (&va() * s).get_elements().to_vec(),
+            "mulr" => (&va() * &s).get_elements().to_vec(),
+            "addassign" => { let mut v = va(); v += vb(); v.get_elements().to_vec() }
+            "dot" => vec![va().dot(&vb())],
+            "squared" => vec![va().squared()],
+            "new" => va().new().get_elements().to_vec(),
+            "new_from_num" => Vector::<f64, D>::new_from_num(&s).get_elements().to_vec(),
+            "roundtrip" => {
+                let arr = va().get_elements();
+                let v2 = Vector::<f64, D>::from_array(arr);
+                let v3 = Vector::<f64, D>::from_slice(&v2.get_elements());
+                (0..D).map(|i| v3[i]).collect()
+            }
+            other => panic!("harness: unknown vec fn {other}"),
+        };
+        json!({"r": r.iter().map(|x| f2b(*x)).collect::<Vec<u64>>()})
+    })
+}
+
+/// the scalar trait methods on f64 in this build
+fn op_f64(j: &Value) -> Value {
+    use momtrop::float::MomTropFloat;
+    let f = j["fn"].as_str().unwrap();
+    let x = j.get("x").and_then(|v| v.as_u64()).map(b2f).unwrap_or(0.0);
+    let y = j.get("y").and_then(|v| v.as_u64()).map(b2f).unwrap_or(0.0);
+    let n = j.get("n").and_then(|v| v.as_i64()).unwrap_or(0) as isize;
+    let r: f64 = match f {
+        "ln" => MomTropFloat::ln(&x),
+        "exp" => MomTropFloat::exp(&x),
+        "cos" => MomTropFloat::cos(&x),
+        "sin" => MomTropFloat::sin(&x),
+        "sqrt" => MomTropFloat::sqrt(&x),
+        "abs" => MomTropFloat::abs(&x),
+        "inv" => MomTropFloat::inv(&x),
+        "powf" => MomTropFloat::powf(&x, &y),
+        "from_isize" => x.from_isize(n),
+        "from_f64" => y.from_f64(x),
+        "to_f64" => x.to_f64(),
+        "PI" => x.PI(),
+        "zero" => MomTropFloat::zero(&x),
+        "one" => MomTropFloat::one(&x),
+        _ => return json!({"skipped": true}),
+    };
+    json!({"r": f2b(r)})
+}
+
 fn main() {
     std::panic::set_hook(Box::new(|_| {}));
     let stdin = std::io::stdin();
@@ -103,6 +162,8 @@ fn main() {
         let res = catch_unwind(AssertUnwindSafe(|| match req["op"].as_str() {
             Some("sample") => op_sample(&req),
             Some("decomp") => op_decomp(&req),
+            Some("vec") => op_vec(&req),
+            Some("f64") => op_f64(&req),
             other => json!({"error": format!("unknown op {:?}", other)}),
         }));
         let ans = match res {
